@@ -219,7 +219,7 @@ def run(check, repo: Repo) -> None:
         te_n = _subst(_normalise_effects(te), t_res, "$filter")
         re_n = _subst(_normalise_effects(re_), r_res, "$filter")
         ok = te_n == re_n
-        check.decide(ok, "C07-R1", f"get_fourier_filter_torch[{name}] conforms to the reference arm", "", mod.line(t_arms[name][0]),
+        check.decide(ok, "C07-R1", f"get_fourier_filter_torch[{name}] conforms to the reference arm", "", mod.line(t_arms[name][0]), definite=True,
                      fail_detail=f"filter '{name}': torch arm ≙ {te_n}\n        reference ≙ {re_n}\n        (numpy→torch table: linspace(…, endpoint=False) ≠ "
                                  f"torch.linspace(…); np.hamming/np.hanning = *_window(periodic=False))")
     # base ramp
@@ -250,7 +250,7 @@ def run(check, repo: Repo) -> None:
             eff = _subst(eff, nm, f"$scratch{i}")
         return eff
     tb, rb = base(gff, t_res), base(rff, r_res)
-    check.decide(_strip_casts(tb) == _strip_casts(rb), "C07-R1", "get_fourier_filter_torch: the base ramp (Kak–Slaney eq. 61) is built as in the reference", "", mod.line(gff),
+    check.decide(_strip_casts(tb) == _strip_casts(rb), "C07-R1", "get_fourier_filter_torch: the base ramp (Kak–Slaney eq. 61) is built as in the reference", "", mod.line(gff), definite=True,
                  fail_detail=f"torch ≙ {_strip_casts(tb)}\n        reference ≙ {_strip_casts(rb)}")
     ev = [n for n in gff.body if isinstance(n, ast.If) and "size % 2" in unparse(n.test) and any(isinstance(x, ast.Raise) for x in n.body)]
     check.decide(bool(ev), "C07-R1", "get_fourier_filter_torch rejects odd sizes (size/2 = size//2 is used by the comparison)", "", mod.line(gff),
